@@ -38,8 +38,12 @@ Params(pid) == LET sg == PathTab[pid].segs IN
                          LAMBDA x : x.par)
 ParamNames(pid) == [i \in 1..Len(Params(pid)) |-> Params(pid)[i].name]
 HasDupParam(pid) == \E i, j \in 1..Len(Params(pid)) : i < j /\ Params(pid)[i].name = Params(pid)[j].name
-PathTagTitle(pid) == "/" \o SegText(PathTab[pid].segs[1])
-PathTagName(pid) == "@" \o SegText(PathTab[pid].segs[1])
+\* the automatic tag of a path is named after its first segment that is not "."; a path of "." segments only has the tag "/" (name "@_")
+FirstRealSeg(pid) == LET segs == PathTab[pid].segs
+                         real == {i \in 1..Len(segs) : ~(segs[i].par = FALSE /\ segs[i].s = ".")}
+                     IN IF real = {} THEN 0 ELSE CHOOSE i \in real : \A j \in real : i <= j
+PathTagTitle(pid) == IF FirstRealSeg(pid) = 0 THEN "/" ELSE "/" \o SegText(PathTab[pid].segs[FirstRealSeg(pid)])
+PathTagName(pid) == IF FirstRealSeg(pid) = 0 THEN "@_" ELSE "@" \o SegText(PathTab[pid].segs[FirstRealSeg(pid)])
 
 \* ---- schemas --------------------------------------------------------------
 Sch(notation, root, rtype, uses, inh, enums, props) ==
@@ -129,7 +133,7 @@ DfsType(C, X, name, vis) ==
        IF TypeNotationOf(n) # "jsight" THEN [C |-> C, vis |-> vis \cup {name}]
        ELSE LET R == DfsTypes(C, X, UseSeq(n.b), 1, vis \cup {name}) IN
             IF R.C.res # "ok" THEN R
-            ELSE IF ~(BodyTab[n.b].uses \subseteq TypeDeclNames(X)) THEN [C |-> CErr(R.C, "typenotfound", j, "body"), vis |-> R.vis]
+            ELSE IF ~(BodyTab[n.b].uses \subseteq TypeDeclNames(X)) THEN [C |-> CErr(R.C, "typenotfound", j, IF n.b \in RefOnSecondLine THEN "body1" ELSE "body"), vis |-> R.vis]
             ELSE IF ~(BodyTab[n.b].enums \subseteq EnumNames(C)) THEN [C |-> CErr(R.C, "enumnotfound", j, "body1"), vis |-> R.vis]   \* the rule stands on the 2nd line of the pool body
             ELSE R
 DfsTypes(C, X, names, i, vis) ==
@@ -262,6 +266,7 @@ AddNode(C, X, j) ==
     [] n.k = "Description" ->
          IF n.a # "" THEN CErr(C, "annotation", j, "kw")
          ELSE IF n.b = "" THEN CErr(C, "descempty", j, "kw")
+         ELSE IF BodyTab[n.b].kind = "textbad" THEN CErr(C, "descparen", j, "body")     \* "( text": something else on the line of the opening parenthesis
          ELSE IF pk = "INFO" THEN
               IF C.info[1].description # "" THEN CErr(C, "notunique", j, "kw") ELSE [C EXCEPT !.info[1].description = BodyTab[n.b].text]
          ELSE IF pk = "TAG" THEN
@@ -428,6 +433,8 @@ Pieces(C, X, i) ==
           ELSE IF BodyTab[X.nodes[rp.node].b].root # "object" THEN CErr(C, "pathnotobject", rp.node, "kw")
           ELSE IF defs \cap C.pieces # {} THEN CErr(C, "pathredefined", rp.node, "kw")
           ELSE IF ~(keys \subseteq names) THEN CErr(C, "unusedpathparam", rp.node, "kw")
+          \* what only shows when the schema of the path variables is built (a union that names an unknown type) stands on Path too
+          ELSE IF ~(BodyTab[X.nodes[rp.node].b].uses \subseteq C.declared) THEN CErr(C, "typenotfound", rp.node, "kw")
           ELSE Pieces([C EXCEPT !.pieces = @ \cup defs], X, i + 1)
 
 \* ---- validateCatalog ------------------------------------------------------------
